@@ -56,6 +56,7 @@ type StringV struct {
 	Len *Term
 	Lit *string // when a literal
 	Itoa *Term     // strconv.Itoa(x): abstract decimal numeral of x
+	ID   *Term     // identity of a string that comes from the reflect model (rtype.go): same ID, same string
 	Join *JoinInfo // strings.Join(items, sep)
 }
 
